@@ -76,7 +76,7 @@ Definition pad_test : nat * nat * bytes := (0, 2, bstr "99").
    `string(line[50:53]) == IAT || strings.TrimSpace(string(line[4:20])) == IATCOR`
    as (unit of the columns, lo, hi, TrimSpace applied, constant).  Columns are
    counted in characters since the fix 272ca522 (they were bytes before: a
-   multi-byte company name shifted them, see docs/C01-file.md) *)
+   multi-byte company name shifted them, see docs/C01.md) *)
 Definition iat_detect : list (indexing * nat * nat * bool * bytes) :=
   [ (IRune, 50, 53, false, bstr "IAT"); (IRune, 4, 20, true, bstr "IATCOR") ].
 
